@@ -12,7 +12,7 @@ ASSUMPTIONS = ["connection identifiers are pairwise distinct across tunnels (the
 
 
 def nontrivial(c):
-    if c.kind in ("paa", "process", "process16", "isolation", "inagain"):
+    if c.kind in ("paa", "process", "process16", "isolation", "inagain", "inbeforeout"):
         return True
     return c.kind == "pairing" or "R=-" not in c.impl
 
